@@ -17,6 +17,7 @@ import (
 	"github.com/ryogrid/SamehadaDB/lib/types"
 
 	"verifharness/internal/core"
+	im "verifharness/internal/idxmodel"
 )
 
 const (
@@ -25,6 +26,7 @@ const (
 	c18FloatBlocks = 256
 	c18StrCases    = 16
 	c18RidCases    = 16
+	c18IdxRidCases = 9 // {skip list, B-tree, unique skip list} x {int, float, varchar}: row ids at the limits through the REAL index wrappers
 )
 
 var (
@@ -52,9 +54,10 @@ func init() {
 		Rule: "cases are blocks of the value space: 256 blocks of all int32 in order, 256 blocks of all non-NaN float32 in numeric order " +
 			"(thorough: every value, exhaustive; quick: every 4099th value plus all block seams and boundaries), adversarial string sets (all pairs), row-id sets. " +
 			"Per value: decode(encode(v,rid))==v, encode(v,ridMax) < encode(next(v),ridMin) bytewise (adjacent strict monotonicity => all pairs), " +
-			"encode(v,ridMin) <= encode(v,rid) <= encode(v,ridMax). Non-trivial = block containing a sign change, exponent change or byte-carry boundary between adjacent values; distinct by block id",
+			"encode(v,ridMin) <= encode(v,rid) <= encode(v,ridMax). Nine more cases store row ids at the limits of the domain (page ids 0..2^31-1 around every byte boundary, slots 0..65535) through the real " +
+			"skip-list / B-tree / unique skip-list index wrappers and demand them back exactly from ScanKey and from a full range scan in which equal keys stay adjacent, before and after deleting half of the entries by (key,row id). Non-trivial = block containing a sign change, exponent change or byte-carry boundary between adjacent values; distinct by block id",
 		Assumptions: []string{"byte-wise comparison of the encoded key is what the index containers use (Go string comparison of the Varchar value)", "NaN keys and strings containing NUL bytes are outside the property's domain"},
-		NumCases:    func(env *core.Env) int { return c18IntBlocks + c18FloatBlocks + c18StrCases + c18RidCases },
+		NumCases:    func(env *core.Env) int { return c18IntBlocks + c18FloatBlocks + c18StrCases + c18RidCases + c18IdxRidCases },
 		RunCase:     c18Run,
 		Extra: func(env *core.Env, agg *core.Aggregate) map[string]any {
 			return map[string]any{"exhaustive": env.Thorough(), "exhaustive_scope": "all int32 and all non-NaN float32 (thorough tier only); strings and row ids are sampled"}
@@ -71,8 +74,10 @@ func c18Run(env *core.Env, idx int) *core.CaseResult {
 		c18Floats(env, idx-c18IntBlocks, res)
 	case idx < c18IntBlocks+c18FloatBlocks+c18StrCases:
 		c18Strings(env, idx-c18IntBlocks-c18FloatBlocks, idx, res)
-	default:
+	case idx < c18IntBlocks+c18FloatBlocks+c18StrCases+c18RidCases:
 		c18Rids(env, idx-c18IntBlocks-c18FloatBlocks-c18StrCases, idx, res)
+	default:
+		c18IndexRids(env, idx-c18IntBlocks-c18FloatBlocks-c18StrCases-c18RidCases, idx, res)
 	}
 	return res
 }
@@ -357,5 +362,155 @@ func c18Rids(env *core.Env, k, idx int, res *core.CaseResult) {
 	res.Key = fmt.Sprintf("rids-%d", k)
 	if k == 0 {
 		res.Sample = map[string]any{"kind": "row ids", "pages": len(pages), "example": page.RID{PageID: math.MaxInt32, SlotNum: 65535}}
+	}
+}
+
+// c18IndexRids: the packing of a row id into an index value as the index wrappers themselves do it (the B-tree wrapper has its own
+// 6-byte form; the skip lists store PackRIDtoUint64): entries with row ids at the limits are stored through InsertEntry and have to come
+// back exactly - from ScanKey, from a full range scan (where the entries of one key must be adjacent and keys ascend), and after
+// DeleteEntry of half of them addressed by (key, row id).
+func c18IndexRids(env *core.Env, k, idx int, res *core.CaseResult) {
+	rng := env.Rand(idx)
+	kind := []int{c17Skip, c17Btree, c17Uniq}[k%3]
+	kt := (k / 3) % 3
+	pageSet := map[int32]bool{}
+	var pages []int32
+	addP := func(p int32) {
+		if p >= 0 && !pageSet[p] {
+			pageSet[p] = true
+			pages = append(pages, p)
+		}
+	}
+	for _, p := range []int32{0, 1, 2, 255, 256, 257, 65535, 65536, 65537, 1<<24 - 1, 1 << 24, 1<<24 + 1, math.MaxInt32 - 1, math.MaxInt32} {
+		addP(p)
+	}
+	for b := uint(3); b < 31; b++ {
+		addP(int32(1)<<b - 1)
+		addP(int32(1) << b)
+		addP(int32(1)<<b | int32(rng.Intn(1<<b)))
+	}
+	np := 24
+	if env.Thorough() {
+		np = 160
+	}
+	for i := 0; i < np; i++ {
+		addP(rng.Int31())
+	}
+	slots := []uint32{0, 1, 2, 255, 256, 257, 4095, 4096, 32767, 32768, 65534, 65535}
+	var rids []im.RID
+	for _, p := range pages {
+		for j := 0; j < 3; j++ {
+			rids = append(rids, im.RID{Page: p, Slot: slots[rng.Intn(len(slots))] + 0})
+		}
+		rids = append(rids, im.RID{Page: p, Slot: uint32(rng.Intn(65536))})
+	}
+	// dedupe (the same slot may have been drawn twice for a page)
+	seen := map[im.RID]bool{}
+	w := 0
+	for _, r := range rids {
+		if !seen[r] {
+			seen[r] = true
+			rids[w] = r
+			w++
+		}
+	}
+	rids = rids[:w]
+	rng.Shuffle(len(rids), func(i, j int) { rids[i], rids[j] = rids[j], rids[i] })
+	nKeys := 48
+	if kind == c17Uniq {
+		nKeys = len(rids)
+	}
+	keys := make([]im.Key, nKeys)
+	for i := range keys {
+		switch kt {
+		case 0:
+			keys[i] = im.Key{T: im.KInt, I: int32(i*977 - 20000)}
+		case 1:
+			keys[i] = im.Key{T: im.KFloat, F: float32(i)*1.25 - 31}
+		default:
+			keys[i] = im.Key{T: im.KStr, S: fmt.Sprintf("k%05d", i)}
+		}
+	}
+	f := c17NewFix(kind, kt, 256, false, keys)
+	want := make([][]im.RID, nKeys)
+	where := map[im.RID]int{}
+	tags := []string{"index-rid", c17KindNames[kind], c17TypeNames[kt]}
+	desc := map[string]any{"index": c17KindNames[kind], "key_type": c17TypeNames[kt], "keys": nKeys, "rids": len(rids)}
+	for i, r := range rids {
+		ki := i % nKeys
+		f.insert(ki, r)
+		want[ki] = append(want[ki], r)
+		where[r] = ki
+		res.Add("index_rid_entries_stored", 1)
+		if r.Page >= 1<<24 {
+			res.Add("index_rid_entries_with_page_id_ge_2^24", 1)
+		}
+	}
+	audit := func(phase string) {
+		for ki := 0; ki < nKeys; ki++ {
+			got := f.scanKey(ki)
+			res.Add("index_rid_lookups", 1)
+			if d := im.CompareSet(got, want[ki]); !d.Empty() {
+				res.Violate("rid", tags, desc, "%s: ScanKey(%v) through the %s index: %s", phase, keys[ki], c17KindNames[kind], d.String())
+				return
+			}
+		}
+		total := 0
+		for _, l := range want {
+			total += len(l)
+		}
+		rows, runaway := f.rangeScan(-1, -1, total+16)
+		if runaway {
+			res.Violate("rid", tags, desc, "%s: full range scan of the %s index returns more than the %d stored entries", phase, c17KindNames[kind], total)
+			return
+		}
+		if len(rows) != total {
+			res.Violate("rid", tags, desc, "%s: full range scan of the %s index returns %d entries, %d are stored", phase, c17KindNames[kind], len(rows), total)
+			return
+		}
+		last := -1
+		got := map[im.RID]bool{}
+		for i, row := range rows {
+			ki, ok := where[row.rid]
+			if !ok || got[row.rid] {
+				res.Violate("rid", tags, desc, "%s: full range scan of the %s index: entry %d carries row id %v, which is %s", phase, c17KindNames[kind], i, row.rid,
+					map[bool]string{true: "returned twice", false: "not stored"}[ok])
+				return
+			}
+			got[row.rid] = true
+			if ki < last {
+				res.Violate("adjacency", tags, desc, "%s: full range scan of the %s index: entry %d (row id %v) belongs to key %v but follows an entry of the greater key %v: equal keys are not adjacent / keys not ascending",
+					phase, c17KindNames[kind], i, row.rid, keys[ki], keys[last])
+				return
+			}
+			last = ki
+			res.Add("index_rid_scan_entries", 1)
+		}
+	}
+	audit("after the inserts")
+	if len(res.Violations) == 0 {
+		for ki := 0; ki < nKeys; ki++ {
+			l := want[ki]
+			keep := l[:0:0]
+			for j, r := range l {
+				if (j+ki)%2 == 0 {
+					f.delete(ki, r)
+					delete(where, r)
+					res.Add("index_rid_entries_deleted_by_key_and_rid", 1)
+				} else {
+					keep = append(keep, r)
+				}
+			}
+			want[ki] = keep
+		}
+		audit("after deleting every second entry")
+	}
+	if kind == c17Btree {
+		f.closeBtree()
+	}
+	res.Nontrivial = true
+	res.Key = fmt.Sprintf("index-rids-%d", k)
+	if k == 0 {
+		res.Sample = map[string]any{"kind": "row ids through the index wrappers", "index": c17KindNames[kind], "entries": len(rids), "example": rids[:4]}
 	}
 }
